@@ -327,7 +327,7 @@ example : ((XSock.run (fun h => h + 100) {}
 /-- **Nothing leaves `send_cell` in clear.**  For every node, whatever its tables contain (circuit being built, ready,
     closing, exit socket retired or not, entries half removed): a cell that is not flagged plaintext is either not sent
     at all, or its body is an AEAD ciphertext at least one overhead longer than the message — in particular not the
-    message.  (Mirrors the guard added to `outgoing_crypto` by fix 6f09f78; before it a circuit id without any table
+    message.  (Mirrors the guard added to `outgoing_crypto` by fix bea4e39; before it a circuit id without any table
     entry made the cell leave unencrypted, which happened to return traffic while `remove_exit_socket` was closing the
     socket.)  No assumption about the order in which tables and sockets are torn down is needed. -/
 theorem sent_cell_never_clear (L : A.Laws) (nd : Node A) (target t : Nat) (c c' : Cell) (hp : c.plaintext = false)
